@@ -64,6 +64,19 @@ def run(ctx):
         rsub["failures"] += fails
         rsub["evaluations"] += n
     results.append(rsub)
+    # a representation may be a MUTABLE object the caller refills in place between calls (a rolling buffer):
+    # ndarray / list carriers of data and times, reused across consecutive calls, must give the flags of fresh ones
+    timed = [t for t in reg if t[0] in ("rate_of_change_test", "flat_line_test", "attenuated_signal_test", "speed_test",
+                                        "climatology_test", "spike_test", "gross_range_test")]
+    n_buf = 0
+    for dc, tc in ((None, None), ("list_nan", "epoch_s_list"), (None, "dt64_s")):
+        pre = None if dc is None and tc is None else cc.carrier_transform(dc, tc, None)[0]
+        nb, fb, _ = cc.shared_buffer_history(timed, tier, rng, 15 if tier == "quick" else 150, pre=pre)
+        n_buf += nb
+        for f in fb:
+            f["carrier"] = {"data": dc, "time": tc, "reused_in_place": True}
+        results[0]["failures"] += fb
+        results[0]["evaluations"] += nb
     out = adapters.merge(
         results,
         rule="per test: sampled in-domain cases re-run with the data / auxiliary inputs, the time axis and the parameter "
@@ -71,4 +84,5 @@ def run(ctx):
              "thorough tier); flags must equal those of the float64-ndarray / datetime64[ns] run, which is itself compared "
              "with the Coq model. non-trivial = >=2 distinct flags or raises")
     out["distribution"]["carrier_runs"] = n_car
+    out["distribution"]["reused_buffer_calls"] = n_buf
     return out
